@@ -21,7 +21,7 @@ def run(tier, seed):
                          "_get_dataflow_type names its result (ghost) and may raise ValueError under a condition left open here; the plain DfBase.set_outputs is a trusted callee"]
     res.assumptions = ["the refusals that depend on the graph store (NoSiblingAncestor / NotInSameCfg in _wire_up_port, "
                        "non-function / non-dataflow ports, integers in an untracked builder) are decided by the bounded run only"]
-    standard_flow(res, FILES, TARGETS, None, bounded_modules=[("bounded.c13", 300, 900)], more=[TRACKED, OPS])
+    standard_flow(res, FILES, TARGETS, None, bounded_modules=[("bounded.c13", 900, 1800)], more=[TRACKED, OPS])
     res.level = "other"
     res.explanation = ("Proved with exact raise conditions from the real source: _CallOrLoad.__init__ raises NoConcreteFunc exactly when a polymorphic function is called / loaded without an instantiation or "
                        "with a different number of type arguments than parameters; Conditional.add_case raises ConditionalError exactly for an index outside 0..n-1 (a genuine defect for negative indices "
